@@ -16,6 +16,8 @@ package jsonrpc
 //@ property C06 units: (*client).setupRequestChan$1, (*wsConn).handleCtxAsync, (*wsConn).handleResponse, (*wsConn).cancelCtx, (*wsConn).handleCall, (*wsConn).handleCall$2, (*wsConn).handleCall$3, (*handler).handle, (*wsConn).closeInFlight, (*RPCServer).ServeHTTP, (*handler).handleReader, httpClient$1, (*wsConn).handleFrame
 //@ property C15 units: (*wsConn).handleWsConn, (*wsConn).handleCall, (*wsConn).closeInFlight, (*wsConn).nextWriter, (*wsConn).readFrame, (*wsConn).frameExecutor, (*client).sendRequest, (*client).setupRequestChan$1, (*wsConn).handleOutChans, (*wsConn).handleChanOut, withLazyWriter, (*lazyWriter).Write, (*lazyWriter).Write$1$1, (*RPCServer).handleWS
 //@ property C16 units: WithReverseClient$1$1, ExtractReverseClient, (*RPCServer).handleWS, (*RPCServer).ServeHTTP, (*client).setupRequestChan$1, (*wsConn).handleChanOut, websocketClient, WithClientHandlerAlias$1, (*wsConn).closeInFlight, (*wsConn).handleWsConn
+//@ property C07 units: (*wsConn).handleOutChans, (*wsConn).handleOutChans$1, (*wsConn).handleChanOut, (*handler).handle, (*wsConn).handleResponse, (*wsConn).handleChanMessage, (*client).makeOutChan$1$1, (*client).makeOutChan$1$2, (*wsConn).handleFrame
+//@ property C08 units: (*wsConn).handleOutChans, (*wsConn).handleChanClose, (*wsConn).closeChans, (*wsConn).handleChanMessage, (*wsConn).tryReconnect, (*wsConn).handleWsConn, (*client).makeOutChan$1$1, (*client).makeOutChan$1$2, (*wsConn).handleResponse
 //@ property C13 units: doCall, (*handler).handle, rpcError$1
 
 //@ -- ------------------------------------------------------------------ shared vocabulary
@@ -50,6 +52,10 @@ package jsonrpc
 //@ unsync wsConn.chanCtr: accessed with sync/atomic only
 //@ chaninv wsConn.readError: read-errors-are-errors: $val != nil [C03]
 //@ ghostmap failedCall(U) Bool
+//@ ghostmap regPair(U) Bool
+//@ specfn pairOf(U, Int) U
+//@ ghostmap closedSink(Int) Bool
+//@ ghostmap listlen(U) Int
 //@ ghostmap cancelledCall(U) Bool
 //@ -- every write-side call on the websocket must happen with the connection's write lock held (gorilla allows one concurrent writer)
 //@ global at call (*github.com/gorilla/websocket.Conn).WriteJSON: assert write-under-writeLk: heldclass("wsConn.writeLk") [C14]
@@ -156,6 +162,20 @@ package jsonrpc
 //@   at go nextMessage: assert reader-restarted-after-swap: calls(setupPings) == 1 && nolocks() [C05,C03]
 
 //@ func (*wsConn).handleOutChans
+//@   safety
+//@   ghost pendingAnnounce : Bool = false
+//@   loop 1 invariant parallel-tables: internal == 2 && len(cases) == internal + len(caseToID) && !pendingAnnounce [C07,C08]
+//@   loop 1 invariant ids-paired-with-their-channels: forall j :: internal <= j && j < len(cases) ==> regPair(pairOf(cases[j].Chan, caseToID[j - internal])) [C07,C08]
+//@   at ret (reflect.Value).Interface: assume istype($result0, #outChanReg)
+//@   at call reflect.Select: assert selects-over-all-registered-channels: $0 == cases [C07]
+//@   at ret reflect.Select: let selCh = cases[$result0].Chan
+//@   at call (reflect.Value).Interface: set pendingAnnounce = true
+//@   at call nextWriter: assert channel-announced-in-the-iteration-it-joins: pendingAnnounce && cases[len(cases) - 1].Chan == registration.ch && caseToID[len(caseToID) - 1] == registration.chID && cases[len(cases) - 1].Dir == 2 [C07]
+//@   at call nextWriter: update regPair(pairOf(registration.ch, registration.chID)) := true
+//@   at call nextWriter: set pendingAnnounce = false
+//@   at call reflect.ValueOf: assert value-and-close-tagged-with-own-channel-id: (calls(Select) >= 1 && istype($0, #uint64)) ==> regPair(pairOf(selCh, unbox($0, #uint64))) [C07,C08]
+//@   at call sendRequest: assert forwarded-as-notification: $1.ID == nil && $1.Params == rp && $1.Method == ite(ok, "xrpc.ch.val", "xrpc.ch.close") [C07,C08]
+//@   at call encoding/json.Marshal: assert forwards-the-received-value: true [C07]
 
 //@ func (*wsConn).closeInFlight
 //@   at lock wsConn.inflightLk: let tbl = c.inflight
@@ -173,6 +193,13 @@ package jsonrpc
 //@   ensures nothing-resent: calls(sendRequest) == 0 [C04]
 
 //@ func (*wsConn).closeChans
+//@   ghost deletions : Int = 0
+//@   at rangenext wsConn.chanHandlers: set deletions = 0
+//@   at mapdel wsConn.chanHandlers: assert removes-the-sink-being-closed: $key == chid && heldclass("chanHandler.lk") [C08]
+//@   at mapdel wsConn.chanHandlers: inc deletions
+//@   at dyncall hnd.cb: assert each-sink-closed-once-after-removal: !$1 && deletions == 1 && $callee == hnd.cb && heldclass("chanHandler.lk") && !heldclass("wsConn.chanHandlersLk") [C08]
+//@   at dyncall hnd.cb: update closedSink(chid) := true
+//@   loop 1 invariant every-visited-sink-closed: forall k :: visited(1, k) ==> closedSink(k) [C08]
 //@   ensures nothing-resent: calls(sendRequest) == 0 [C04]
 //@   loop 1 invariant sinks-ok-while-held: sinksOK(c) [C10,C14,C08]
 
@@ -207,9 +234,23 @@ package jsonrpc
 
 //@ func (*wsConn).handleChanMessage
 //@   nopanic [C10]
+//@   at maplookup wsConn.chanHandlers: assert dispatches-by-the-frames-channel-id: $key == chid [C07]
+//@   at maplookup wsConn.chanHandlers: let sink = $val
+//@   at maplookup wsConn.chanHandlers: let found = $ok
+//@   at call encoding/json.Unmarshal: assert channel-id-is-first-param: calls(Unmarshal) == 1 ==> $0 == params[0].data [C07]
+//@   at unlock wsConn.chanHandlersLk: assert sink-locked-before-table-released: found ==> heldclass("chanHandler.lk") [C07,C08]
+//@   at dyncall hnd.cb: assert value-goes-to-that-subscriptions-sink-only: $callee == sink.cb && $0 == params[1].data && $1 && heldclass("chanHandler.lk") && !heldclass("wsConn.chanHandlersLk") [C07,C08]
+//@   ensures at-most-one-delivery: calls(cb) <= 1 [C07]
 
 //@ func (*wsConn).handleChanClose
 //@   nopanic [C10]
+//@   ghost deletions : Int = 0
+//@   at maplookup wsConn.chanHandlers: assert looks-up-the-closed-channel: $key == chid [C08]
+//@   at maplookup wsConn.chanHandlers: let sink = $val
+//@   at mapdel wsConn.chanHandlers: assert removes-exactly-the-closed-subscription: $key == chid && heldclass("chanHandler.lk") [C08]
+//@   at mapdel wsConn.chanHandlers: inc deletions
+//@   at dyncall hnd.cb: assert close-callback-once-after-removal: $callee == sink.cb && !$1 && deletions == 1 && heldclass("chanHandler.lk") && !heldclass("wsConn.chanHandlersLk") [C08]
+//@   ensures at-most-one-close: calls(cb) <= 1 [C08]
 
 //@ func (*wsConn).handleResponse
 //@   requires idok(frame.ID)
@@ -244,7 +285,7 @@ package jsonrpc
 
 //@ func (*wsConn).handleOutChans$1
 //@   requires w != nil
-//@   at call (*encoding/json.Encoder).Encode: assert channel-reply-shape: resp.Jsonrpc == "2.0" && resp.ID == registration.reqID && resp.Error == nil [C09,C07]
+//@   at call (*encoding/json.Encoder).Encode: assert channel-reply-shape: resp.Jsonrpc == "2.0" && resp.ID == registration.reqID && resp.Error == nil && resp.Result == box(registration.chID) [C09,C07]
 //@   ensures one-value: calls(Encode) == 1 [C09]
 
 //@ func (*wsConn).handleFrame
@@ -283,8 +324,11 @@ package jsonrpc
 //@   nopanic [C10]
 
 //@ func (*client).makeOutChan$1$2
-//@   requires incoming != nil && !closed(incoming)
-//@   requires 0 <= valOut && valOut < NumOut(ftyp)
+//@   requires sink-owns-open-channel: incoming != nil && !closed(incoming) [C10,C08]
+//@   requires valid-result-index: 0 <= valOut && valOut < NumOut(ftyp) [C10]
+//@   at close incoming: assert closes-only-at-end-of-stream: !ok [C08]
+//@   at send incoming: assert forwards-the-decoded-value-while-live: ok && $val == val && calls(Unmarshal) == 1 && calls(Err) == 1 [C07,C08]
+//@   ensures end-of-stream-closes-the-buffer-input: !ok ==> closed(incoming) && calls(Unmarshal) == 0 [C08]
 //@   nopanic [C10]
 
 //@ -- ------------------------------------------------------------------ handler.go / server.go
@@ -499,7 +543,7 @@ package jsonrpc
 //@   at makechan: assert cancel-mailbox-buffered: chancap($chan) == 1 [C15]
 //@   loop 1 invariant cancel-never-silently-dropped: !pendingCancel && calls(Marshal) <= 1 [C06]
 //@   at recv cr.ready: let got = $val
-//@   ensures returns-what-arrived-in-own-mailbox: result1 == nil ==> result0 == got [C02]
+//@   ensures returns-what-arrived-in-own-mailbox: result1 == nil ==> defined(got) && result0 == got [C02]
 
 //@ func (*rpcFunc).handleRpcCall
 //@   may_panic
@@ -582,3 +626,13 @@ package jsonrpc
 //@   modifies nothing
 //@   ensures fresh-empty-tables: result != nil && result.methods != nil && result.aliasedMethods != nil && (forall k: U :: !present(result.methods, k)) && (forall k: U :: !present(result.aliasedMethods, k)) [C12,C16,C01]
 //@   ensures carries-configuration: result.methodNameFormatter == sc.methodNameFormatter && result.maxRequestSize == sc.maxRequestSize && result.paramDecoders == sc.paramDecoders && result.errors == sc.errors [C12,C10,C11]
+
+//@ func (*client).makeOutChan$1$1
+//@   requires incoming != nil
+//@   at call reflect.Select: assert always-ready-to-receive-and-to-stop: len($0) >= 2 && $0[0].Dir == 2 && $0[1].Dir == 2 && $0[1].Chan == valueOf(box(incoming)) && (len($0) == 3) == (listlen(buf) > 0) [C07]
+//@   at call (*container/list.List).PushBack: assert buffers-in-arrival-order: $0 == buf && ok [C07,C08]
+//@   at call (*container/list.List).Remove: assert removes-the-head-that-was-delivered: $0 == buf && $1 == front && chosen == 2 [C07,C08]
+//@   at call (reflect.Value).Elem: assert offers-the-oldest-buffered-value: calls(Front) >= 1 && front != nil [C07,C08]
+//@   at call (reflect.Value).Close: assert closes-only-when-cancelled-or-drained: chosen == 0 || (incoming == nil && listlen(buf) == 0) [C07,C08]
+//@   loop 1 invariant never-idle-with-stream-ended-and-drained: !(incoming == nil && listlen(buf) == 0) && listlen(buf) >= 0 [C08]
+//@   ensures closes-exactly-once-before-exit: calls(Close) == 1 [C08]
